@@ -193,8 +193,8 @@ func cmdCheck(args []string) {
 			if fr.Con.Flags["sweep"] && !(o.Kind == "create" && cfg.SweepCreate) && !(o.Kind == "pre" && sweepPre(g, o, *prop)) {
 				continue
 			}
-			if notClaimed[baseName(o.Name)] {
-				continue
+			if notClaimed[baseName(o.Name)] && !*update {
+				continue // (when the claimed set is recomputed everything is tried again)
 			}
 			obs = append(obs, o)
 		}
@@ -226,15 +226,15 @@ func cmdCheck(args []string) {
 		}
 	}
 	if cfg.AtomicScan {
-		for _, o := range g.atomicScan() {
-			if !notClaimed[baseName(o.Name)] {
+		for _, o := range append(g.atomicScan(), g.onceScan()...) {
+			if !notClaimed[baseName(o.Name)] || *update {
 				obs = append(obs, o)
 			}
 		}
 	}
 	if cfg.StableScan {
 		for _, o := range g.stableScan() {
-			if !notClaimed[baseName(o.Name)] {
+			if !notClaimed[baseName(o.Name)] || *update {
 				obs = append(obs, o)
 			}
 		}
@@ -538,6 +538,86 @@ func sweepPre(g *Gen, o *Oblig, prop string) bool {
 
 // atomicScan: a field declared `atomiconly` may only be used as the address argument of a
 // sync/atomic function, anywhere in the package.
+// onceScan: a function declared onceonly is referenced nowhere but as the argument of sync.Once.Do.
+func (g *Gen) onceScan() []*Oblig {
+	var out []*Oblig
+	for _, ent := range g.cs.OnceOnly {
+		i := strings.Index(ent, "|")
+		dir, fname := ent[:i], ent[i+1:]
+		sp := g.pkgs[dir]
+		if sp == nil {
+			continue
+		}
+		var target *ssa.Function
+		for _, fn := range g.funcs {
+			if fn.Pkg == sp && fn.RelString(sp.Pkg) == fname {
+				target = fn
+			}
+		}
+		o := &Oblig{Name: fmt.Sprintf("%s.%s#onceonly", sp.Pkg.Name(), fname), Func: fname, Kind: "onceonly", Label: fname}
+		if target == nil {
+			o.Res = &SolveResult{Status: "sat", Solver: "use-scan", Output: "function not found"}
+			out = append(out, o)
+			continue
+		}
+		var bad []string
+		n := 0
+		for _, fn := range g.funcs {
+			for _, b := range fn.Blocks {
+				for _, in := range b.Instrs {
+					uses := false
+					var closure ssa.Value
+					for _, op := range in.Operands(nil) {
+						if op == nil || *op == nil {
+							continue
+						}
+						if f, ok := (*op).(*ssa.Function); ok && f == target {
+							uses = true
+							if mc, ok := in.(*ssa.MakeClosure); ok {
+								closure = mc
+							}
+						}
+					}
+					if !uses {
+						continue
+					}
+					n++
+					okUse := false
+					check := func(c *ssa.CallCommon, arg ssa.Value) bool {
+						cal := c.StaticCallee()
+						return cal != nil && cal.String() == "(*sync.Once).Do" && len(c.Args) == 2 && c.Args[1] == arg
+					}
+					if closure != nil {
+						okUse = true
+						for _, r := range *closure.Referrers() {
+							if _, dbg := r.(*ssa.DebugRef); dbg {
+								continue
+							}
+							c, isCall := r.(*ssa.Call)
+							if !isCall || !check(c.Common(), closure) {
+								okUse = false
+							}
+						}
+					} else if c, isCall := in.(*ssa.Call); isCall {
+						okUse = check(c.Common(), target)
+					}
+					if !okUse {
+						pos := g.prog.Fset.Position(in.Pos())
+						bad = append(bad, fmt.Sprintf("%s (%s:%d)", fn.String(), filepath.Base(pos.Filename), pos.Line))
+					}
+				}
+			}
+		}
+		if len(bad) == 0 && n > 0 {
+			o.Res = &SolveResult{Status: "unsat", Solver: "use-scan", Output: fmt.Sprintf("%d uses, all as the argument of sync.Once.Do", n)}
+		} else {
+			o.Res = &SolveResult{Status: "sat", Solver: "use-scan", Output: "used other than through sync.Once.Do: " + strings.Join(bad, "; ")}
+		}
+		out = append(out, o)
+	}
+	return out
+}
+
 func (g *Gen) atomicScan() []*Oblig {
 	var out []*Oblig
 	for _, ent := range g.cs.AtomicOnly {
@@ -559,6 +639,9 @@ func (g *Gen) atomicScan() []*Oblig {
 			if fn.Pkg != sp {
 				continue
 			}
+			if f := g.prog.Fset.File(fn.Pos()); strings.HasPrefix(fn.Name(), "__vc_") || f != nil && strings.Contains(f.Name(), "zz_verif_") {
+				continue // specification code (clauses, spec functions) is not part of the program
+			}
 			for _, b := range fn.Blocks {
 				for _, in := range b.Instrs {
 					fa, ok := in.(*ssa.FieldAddr)
@@ -573,7 +656,7 @@ func (g *Gen) atomicScan() []*Oblig {
 						n++
 						okUse := false
 						if c, isCall := ref.(*ssa.Call); isCall {
-							if cal := c.Common().StaticCallee(); cal != nil && strings.HasPrefix(cal.String(), "sync/atomic.") {
+							if cal := c.Common().StaticCallee(); cal != nil && (strings.HasPrefix(cal.String(), "sync/atomic.") || strings.HasPrefix(cal.String(), "(*sync/atomic.")) {
 								okUse = true
 							}
 						}
